@@ -330,7 +330,14 @@ def run(ctx):
         case = lmgen.gen_case(ctx.rng, size=size, max_vocab=30 if quick else 60)
         ctx.hist("lm.order", case.meta["order"])
         ctx.hist("lm.kind", case.meta["kind"])
-        found = sweep_case(ctx, case, hexe, dexe, bb, work, ci, quick) or found
+        try:
+            found = sweep_case(ctx, case, hexe, dexe, bb, work, ci, quick) or found
+        except Exception:
+            import traceback
+            ctx.violation("six-way: output of the harness could not be parsed/compared for this case (malformed result line)",
+                          {"stream": "six-way", "arpa": case.arpa.decode("utf-8", "replace"), "queries": case.queries,
+                           "options": {"mult": case.mult, "abits": case.abits}, "traceback": traceback.format_exc()[-1500:]})
+            found = True
     ctx.cov["rule"] = ("six-way: one evaluation = one scored word compared pairwise across the six classes, across the sampled "
                        "configurations and across ARPA-vs-binary loading; distinct by ARPA bytes + queries; non-trivial when the "
                        "model has n-grams of order >= 2")
